@@ -3,8 +3,8 @@ import copy, random
 from .. import core, gen, ref
 from . import cu
 
-MODULES = ['DsdVerif.Props.C07', 'DsdVerif.Props.PyFuncs']
-GEN_FILES = ['PyExprs', 'PyFuncs']
+MODULES = ['DsdVerif.Props.C07', 'DsdVerif.Props.PyFuncs', 'DsdVerif.Lemmas.PyObjRot']
+GEN_FILES = ['PyExprs', 'PyFuncs', 'PyComplexS']
 THEOREMS = []          # filled below from THEOREM_NAMES that exist in Props/C07.lean
 THEOREM_NAMES = ['rotateOnce_pairs', 'rotateOnce_single', 'rotateOnce_strands', 'rotate_period', 'rotatePtOnce_spec',
                  'rotationsPt_length', 'wrap_eq_emod', 'rotateOnce_pairtable', 'rotatePtOnce_inverts',
@@ -18,7 +18,10 @@ THEOREMS = ['Dsd.C07.' + t for t in THEOREM_NAMES] + ['Dsd.PyExprs.py_wrap_eq_mo
                                                          # rotate_complex_pt (recursive generator) as written in the source
                                                          'Dsd.PyFuncs.py_rotate_complex_pt_eq', 'Dsd.PyFuncs.py_rotate_empty_stab_faults',
                                                          'Dsd.PyFuncs.py_rotate_complex_db_eq_pt', 'Dsd.PyFuncs.py_rotate_complex_db_eq',
-                                                         'Dsd.PyFuncs.py_rotate_complex_db_wellformed', 'Dsd.PyFuncs.py_rotate_complex_db_no_strand']
+                                                         'Dsd.PyFuncs.py_rotate_complex_db_wellformed', 'Dsd.PyFuncs.py_rotate_complex_db_no_strand',
+                                                         # ComplexS.rotate / rotate_pt / the turns setter as written in the source (Gen/PyComplexS.lean)
+                                                         'Dsd.PyObj.Rot.view_rotate_of_strands', "Dsd.PyObj.Rot.view_rotate'", 'Dsd.PyObj.Rot.view_rotate_false',
+                                                         'Dsd.PyObj.Rot.exec_rotate_pt', 'Dsd.PyObj.Rot.pySetTurns_spec']
 ASSUMPTIONS = [
     'rotate_complex_once / rotate_complex_pt are hand-modelled (Model/Complex.lean: rotateOnce, rotatePtOnce, rotationsPt) and tied '
     'to the code by the correspondence streams rot1 / rotpt',
